@@ -3,11 +3,13 @@ C12 — property theorems (DESIGN.md §2 C12).  Helper lemmas are in Lemmas.lean
 
   1. go_onchain_in_time / never_for_unclaimable      (force-close decision)
   2. exactly_one_resolver                            (one resolver per HTLC with an output)
-  3. dust_and_dangling_failed_once_partial + the machine-checked negation on the path through
-     StateCommitmentBroadcasted (finding F2)
+  3. dust_and_dangling_failed_once_partial (StateDefault → peer's commitment), …_default_local
+     (StateDefault → our commitment), failed_exactly_user_then_local (user force close → our
+     commitment: exact fail counts for EVERY index, containing both the true part of the
+     statement and finding F2 in general form) + the machine-checked negations (F2/F2b/F2c)
   4. no_failback_with_output
 -/
-import LndModel.C12.PathLemmas
+import LndModel.C12.PathLemmas2
 
 namespace LndModel.C12
 
@@ -303,6 +305,63 @@ theorem commit_set_names_spent_commitment (c : ChanCommits) (k : SetKey) (sub : 
 example : ∃ sub cs, commitSetOfSpend { loc := [], rem := [], pend := some [default] } .pend
     = some (sub, cs) := ⟨_, _, rfl⟩
 
+/-! ## 2c. Chain watcher dispatch composed with the arbitrator: exactly one resolver, unconditionally -/
+
+/-- the close summary built for the spent commitment has a resolution for the outpoint of every
+    HTLC that has an output there -/
+theorem close_summary_has_resolution (s : HtlcSet) (commit anchor : Bool) (h : Htlc)
+    (hnd : h.dust = false) :
+    (h ∈ s.outgoing → (closeSummaryResolutions s commit anchor).outOuts.contains (outU32 h) = true) ∧
+    (h ∈ s.incoming → (closeSummaryResolutions s commit anchor).inOuts.contains (outU32 h) = true) := by
+  constructor <;> intro hm <;>
+    simp only [closeSummaryResolutions, List.contains_iff_mem, List.mem_map, List.mem_filter] <;>
+    exact ⟨h, ⟨hm, by simp [hnd]⟩, rfl⟩
+
+/-- `watcher_dispatch_exactly_one_resolver`: commitment `k` (ours, the peer's current, the
+    peer's pending one) is spent on chain; the chain watcher dispatches `cs` for it and lnwallet
+    builds the close summary for that commitment; the arbitrator handles the event from
+    `StateDefault`, `StateBroadcastCommit` or `StateCommitmentBroadcasted`.  Then EVERY HTLC with
+    an output on the spent commitment gets exactly one resolver — no "if a resolution exists"
+    side condition left: offered ⇒ one timeout / outgoing-contest resolver, received ⇒ one
+    success / incoming-contest resolver. -/
+theorem watcher_dispatch_exactly_one_resolver (env : Env) (a : Arb) (c : ChanCommits) (k : SetKey)
+    (sub : CloseSub) (cs : CommitSet) (commit anchor : Bool) (height : Nat) (choice : AState → Bool)
+    (hd : commitSetOfSpend c k = some (sub, cs))
+    (hpre : a.state = .default ∨ a.state = .broadcastCommit ∨ a.state = .commitmentBroadcasted)
+    (h : Htlc) (hnd : h.dust = false) :
+    let res := closeSummaryResolutions (cs.sets.get cs.key) commit anchor
+    let out := (handleClose env a
+        (if sub = .localUnilateral then .localForce cs res height else .remoteForce cs res height) choice).2
+    (h ∈ (newHtlcSet (match k with | .loc => c.loc | .rem => c.rem | .pend => c.pend.getD [])).outgoing →
+      (out.resolvers.filter (fun r => (r.1 == .timeout || r.1 == .outContest) && r.2 == h.index)).length = 1) ∧
+    (h ∈ (newHtlcSet (match k with | .loc => c.loc | .rem => c.rem | .pend => c.pend.getD [])).incoming →
+      (out.resolvers.filter (fun r => (r.1 == .inContest || r.1 == .success) && r.2 == h.index)).length = 1) := by
+  intro res out
+  obtain ⟨hkey, hwf, hset, hsub⟩ := commit_set_names_spent_commitment c k sub cs hd
+  have hres := close_summary_has_resolution (cs.sets.get cs.key) commit anchor h hnd
+  have hb : res.breach = false := rfl
+  constructor
+  · intro hm
+    rw [← hset] at hm
+    have := exactly_one_resolver_arb env a cs res height choice (decide (sub = .localUnilateral))
+      hpre hb hwf h hm hnd
+    simp only [decide_eq_true_eq] at this
+    rw [hres.1 hm] at this
+    simpa [out] using this
+  · intro hm
+    rw [← hset] at hm
+    have := exactly_one_resolver_arb_received env a cs res height choice
+      (decide (sub = .localUnilateral)) hpre hb hwf h hm hnd
+    simp only [decide_eq_true_eq] at this
+    rw [hres.2 hm] at this
+    simpa [out] using this
+
+example : ∃ (c : ChanCommits) (sub : CloseSub) (cs : CommitSet) (h : Htlc),
+    commitSetOfSpend c .pend = some (sub, cs) ∧ h.dust = false ∧
+    h ∈ (newHtlcSet (c.pend.getD [])).outgoing :=
+  ⟨{ loc := [], rem := [], pend := some [{ (default : Htlc) with outputIndex := 2 }] }, _, _,
+    { (default : Htlc) with outputIndex := 2 }, rfl, by decide, by decide⟩
+
 /-! ## 4. No fail-back for an offered HTLC that has an output on the confirmed commitment -/
 
 /-- `no_failback_with_output` (classification level): no `FailDust` / `FailDangling` entry carries
@@ -425,6 +484,111 @@ theorem failed_at_most_once_after_broadcast_remote (env : Env) (a : Arb) (res : 
       (handleClose env (advance env a h0 trig none choice advanceFuel).1
         (.remoteForce ⟨remoteKey b, a.active⟩ res h1) choice).2.fails).flatten.count i ≤ 1 :=
   broadcast_then_remote_at_most_once env a res h0 h1 choice b trig hs hf hb htrig hshape hwfo i
+
+/-! ### Paths that end with OUR commitment confirming (peer's two commitments agree) -/
+
+/-- `dust_and_dangling_failed_once` on the path StateDefault → (local close) →
+    StateContractClosed, i.e. our own commitment confirms although this run never broadcast it:
+    when the peer's current and pending commitment agree on the HTLCs they share (`Agree`;
+    without it the count depends on map order, finding F2b), every offered HTLC that is dust on
+    our commitment or exists only on the peer's commitment(s) with unknown preimage is failed
+    upstream exactly once, and nothing else is failed — for both map-iteration choices. -/
+theorem dust_and_dangling_failed_once_default_local (env : Env) (a : Arb) (sets : Sets)
+    (res : Resolutions) (height : Nat) (choice : AState → Bool)
+    (hs : a.state = .default) (hb : res.breach = false)
+    (hwr : WFSet sets.rem) (hwp : WFSet sets.pend) (hag : Agree sets) (i : Nat) :
+    (handleClose env a (.localForce ⟨.loc, sets⟩ res height) choice).2.fails.flatten.count i
+      = if i ∈ mustFailLocal env sets then 1 else 0 :=
+  close_default_local_fails env a sets res height choice hs hb hwr hwp hag i
+
+/-- The ordinary path — user force close at height `h0`, then OUR commitment confirms —
+    characterised completely: for EVERY index the number of upstream fails along the whole path
+    is 1 if the HTLC is dust on our commitment, or dangling (only on the peer's commitments,
+    preimage unknown) with an output there, or dangling dust that was already at its cut-off at
+    `h0`; and 0 otherwise.  So the statement holds on this path for all of those, and fails
+    exactly for dangling dust that was not yet due at broadcast time (finding F2, here for all
+    inputs rather than one witness). -/
+theorem failed_exactly_user_then_local (env : Env) (a : Arb) (res : Resolutions) (h0 h1 : Nat)
+    (choice : AState → Bool) (hs : a.state = .default) (hf : a.fcErr = .none)
+    (hb : res.breach = false)
+    (hwr : WFSet a.active.rem) (hwp : WFSet a.active.pend) (hag : Agree a.active) (i : Nat) :
+    ((handleUser env a h0 choice).2.fails ++
+      (handleClose env (handleUser env a h0 choice).1
+        (.localForce ⟨.loc, a.active⟩ res h1) choice).2.fails).flatten.count i
+      = if i ∈ failedUserLocal env a.active h0 then 1 else 0 :=
+  user_then_local_fails env a res h0 h1 choice hs hf hb hwr hwp hag i
+
+/-- `dust_and_dangling_failed_once` on user force close → our commitment confirms, when every
+    dangling dust HTLC (if any) was at its cut-off when we broadcast: exactly once for every
+    HTLC that must be failed, nothing else. -/
+theorem dust_and_dangling_failed_once_user_then_local (env : Env) (a : Arb) (res : Resolutions)
+    (h0 h1 : Nat) (choice : AState → Bool) (hs : a.state = .default) (hf : a.fcErr = .none)
+    (hb : res.breach = false)
+    (hwr : WFSet a.active.rem) (hwp : WFSet a.active.pend) (hag : Agree a.active)
+    (hdue : ∀ x ∈ a.active.rem.outgoing ++ a.active.pend.outgoing,
+      hasIndex a.active.loc.outgoing x.index = false → x.dust = true →
+      shouldGoOnChain env x env.deltaOut h0 = true) (i : Nat) :
+    ((handleUser env a h0 choice).2.fails ++
+      (handleClose env (handleUser env a h0 choice).1
+        (.localForce ⟨.loc, a.active⟩ res h1) choice).2.fails).flatten.count i
+      = if i ∈ mustFailLocal env a.active then 1 else 0 := by
+  rw [failed_exactly_user_then_local env a res h0 h1 choice hs hf hb hwr hwp hag i]
+  have : i ∈ failedUserLocal env a.active h0 ↔ i ∈ mustFailLocal env a.active := by
+    unfold failedUserLocal mustFailLocal
+    simp only [List.mem_append, List.mem_map, List.mem_filter, Bool.and_eq_true,
+      Bool.not_eq_true', Bool.or_eq_true]
+    constructor
+    · rintro (h | ⟨x, ⟨hx, ⟨h1', h2'⟩, _⟩, rfl⟩)
+      · exact Or.inl h
+      · exact Or.inr ⟨x, ⟨hx, h1', h2'⟩, rfl⟩
+    · rintro (h | ⟨x, ⟨hx, h1', h2'⟩, rfl⟩)
+      · exact Or.inl h
+      · refine Or.inr ⟨x, ⟨hx, ⟨h1', h2'⟩, ?_⟩, rfl⟩
+        cases hd : x.dust
+        · exact Or.inl rfl
+        · exact Or.inr (hdue x (List.mem_append.mpr hx) h1' hd)
+  by_cases h : i ∈ mustFailLocal env a.active
+  · rw [if_pos (this.mpr h), if_pos h]
+  · rw [if_neg (fun h' => h (this.mp h')), if_neg h]
+
+/-- Finding F2 on the ordinary path, for all inputs: an offered HTLC that exists only on the
+    peer's commitment(s), is dust there, has an unknown preimage and was not yet at its cut-off
+    when the user force-closed must be failed back (it is in `mustFailLocal`) but is never
+    failed along user force close → our commitment confirms. -/
+theorem dangling_dust_not_due_never_failed (env : Env) (a : Arb) (res : Resolutions)
+    (h0 h1 : Nat) (choice : AState → Bool) (hs : a.state = .default) (hf : a.fcErr = .none)
+    (hb : res.breach = false)
+    (hwr : WFSet a.active.rem) (hwp : WFSet a.active.pend) (hag : Agree a.active)
+    (x : Htlc) (hx : x ∈ a.active.rem.outgoing ++ a.active.pend.outgoing)
+    (hnl : hasIndex a.active.loc.outgoing x.index = false) (hd : x.dust = true)
+    (hk : env.preimageKnown x.hash = false)
+    (hnd : shouldGoOnChain env x env.deltaOut h0 = false) :
+    x.index ∈ mustFailLocal env a.active ∧
+    ((handleUser env a h0 choice).2.fails ++
+      (handleClose env (handleUser env a h0 choice).1
+        (.localForce ⟨.loc, a.active⟩ res h1) choice).2.fails).flatten.count x.index = 0 := by
+  constructor
+  · unfold mustFailLocal
+    refine List.mem_append.mpr (Or.inr (List.mem_map.mpr ⟨x, List.mem_filter.mpr ⟨hx, ?_⟩, rfl⟩))
+    simp [hnl, hk]
+  · rw [failed_exactly_user_then_local env a res h0 h1 choice hs hf hb hwr hwp hag x.index]
+    have hnot : x.index ∉ failedUserLocal env a.active h0 := by
+      unfold failedUserLocal
+      intro hc
+      rcases List.mem_append.mp hc with h | h
+      · obtain ⟨y, hy, hyi⟩ := List.mem_map.mp h
+        have := (hasIndex_iff a.active.loc.outgoing x.index).mpr
+          (List.mem_map.mpr ⟨y, (List.mem_filter.mp hy).1, hyi⟩)
+        rw [hnl] at this; cases this
+      · obtain ⟨y, hy, hyi⟩ := List.mem_map.mp h
+        have hy' := List.mem_filter.mp hy
+        have hc := copy_props env a.active hwr hwp hag y x hy'.1 hx hyi env.deltaOut h0
+        have h2 := hy'.2
+        simp only [Bool.and_eq_true, Bool.not_eq_true', Bool.or_eq_true] at h2
+        rcases h2.2 with h3 | h3
+        · rw [hc.1, hd] at h3; cases h3
+        · rw [hc.2.2, hnd] at h3; cases h3
+    rw [if_neg hnot]
 
 /-! ### Finding F2: the statement is false on the path through StateCommitmentBroadcasted -/
 
@@ -611,5 +775,25 @@ example : F2.hLocal ∈ F2.sets.loc.outgoing ∧
 
 example : F2.hLocal.dust = false ∧ WFSet (F2.sets.get .loc) :=
   ⟨by simp [F2.hLocal, Htlc.dust], newHtlcSet_wf _⟩
+
+/-- the hypotheses of the local-confirmation theorems (`Agree`, well-formed sets, a dangling dust
+    HTLC that is not due at the broadcast height 100) are satisfied by the F2 witness sets -/
+example : Agree F2dd.sets ∧ WFSet F2dd.sets.rem ∧ WFSet F2dd.sets.pend ∧
+    F2dd.h7 ∈ F2dd.sets.rem.outgoing ++ F2dd.sets.pend.outgoing ∧
+    hasIndex F2dd.sets.loc.outgoing F2dd.h7.index = false ∧ F2dd.h7.dust = true ∧
+    F2.env.preimageKnown F2dd.h7.hash = false ∧
+    shouldGoOnChain F2.env F2dd.h7 F2.env.deltaOut 100 = false := by
+  refine ⟨?_, newHtlcSet_wf _, newHtlcSet_wf _, ?_, ?_, ?_, ?_, ?_⟩
+  · intro x hx y hy hi
+    simp [F2dd.sets, newHtlcSet, mapOfList, insertByIndex, F2dd.h3, F2dd.h7] at hx hy
+    subst hx
+    rcases hy with rfl | rfl
+    · exact ⟨rfl, rfl, rfl⟩
+    · simp at hi
+  · simp [F2dd.sets, newHtlcSet, mapOfList, insertByIndex, F2dd.h3, F2dd.h7]
+  · simp [F2dd.sets, newHtlcSet, mapOfList, insertByIndex, F2dd.h3, F2dd.h7, hasIndex]
+  · simp [F2dd.h7, Htlc.dust]
+  · simp [F2.env, F2dd.h7]
+  · simp [shouldGoOnChain, F2.env, F2dd.h7, sub32, U32]
 
 end LndModel.C12
